@@ -2,6 +2,7 @@ import TxVerif.Props.C02
 import TxVerif.Tie.Order
 import TxVerif.Tie.Skeleton
 import TxVerif.Props.C10C02Engine
+import TxVerif.Props.C02Conc
 open TxVerif
 #print axioms isoInv_step
 #print axioms isoInv_reach
@@ -18,3 +19,31 @@ open TxVerif
 #print axioms c02_reader_view
 #print axioms c02_writer_invisible_flush
 #print axioms c02_writer_invisible_end
+#print axioms conc_invariant
+#print axioms conc_engInvU
+#print axioms conc_engInvO
+#print axioms conc_snapshot_isolation
+#print axioms conc_reader_view_stable
+#print axioms conc_reader_pages_never_written
+#print axioms reader_never_spans_commit
+#print axioms conc_publish_atomic
+#print axioms conc_version_counts_commits
+#print axioms conc_writer_is_sequential
+#print axioms conc_final_state
+#print axioms runWHistory_commit_only
+#print axioms econc_no_deadlock
+#print axioms econc_terminates
+#print axioms cinv_init
+#print axioms run_cinv
+#print axioms step_cinv
+#print axioms cur_r0
+#print axioms read_ok
+#print axioms U.commit_disk
+#print axioms stepW_frame
+#print axioms stepR_frame
+#print axioms run_engInvO
+#print axioms cinv_no_deadlock
+#print axioms estep_mu
+#print axioms ec_effSteps_le
+#print axioms stepW_seq
+#print axioms run_seqInv
